@@ -11,10 +11,10 @@ import (
 	"errors"
 	"fmt"
 	"os"
-	"strconv"
 	"reflect"
 	"runtime"
 	"sort"
+	"strconv"
 	"sync"
 	"sync/atomic"
 	"time"
